@@ -2,17 +2,24 @@
 //!
 //! Differential oracle on the real code. An alphabet of calls (each a closed
 //! program over the public API returning a canonical outcome: values, error
-//! kind + line/column + message, pointer-sharing classes, budget report,
-//! emitted text) is executed
+//! kind + line/column + message, pointer-sharing classes, strong counts per class,
+//! payloads dropped with the result, budget report, emitted text) is executed
 //!   * alone on a fresh thread                     -> the call's *baseline*;
-//!   * as a member of every history of length <= 3 (quick) / <= 4 (thorough)
-//!     over the core alphabet, every pair over the full table, and seeded random
-//!     histories up to length 20 — each history on its own fresh thread; every
-//!     call's outcome must equal its baseline;
-//!   * nested inside another type's `Deserialize` impl: the outer call with the
-//!     real nested call(s) must equal the same outer call whose nested calls are
-//!     replaced by their constant (baseline) results, and every nested call's own
-//!     outcome must equal its baseline;
+//!   * as a member of every history of length <= 4 (quick) / <= 5 (thorough)
+//!     over the core alphabet, every pair and triple over the full table (all 19
+//!     entry points x {Ok, Err, visitor panic}), every schedule of `next` calls on
+//!     three iterators held open at the same time (and every pair of table calls
+//!     between their items), and seeded random histories up to length 24 — each
+//!     history on its own fresh thread; every call's outcome must equal its baseline;
+//!   * nested inside another type's `Deserialize` impl (15 outer kinds: the nesting
+//!     field in the middle of / before anchored material, inside Rc/Arc/recursive
+//!     wrapper contexts, in a tuple element, in a mapping key, in the closure of
+//!     `with_deserializer_*`; the nesting type ends Ok / Err / panics through the
+//!     outer call; the nested calls run on the same or on another thread; every
+//!     entry point; nesting depth <= 3): the outer call with the real nested
+//!     call(s) must equal the same outer call whose nested calls are replaced by
+//!     their constant (baseline) results, and every nested call's own outcome must
+//!     equal its baseline;
 //!   * repeatedly (fresh threads, and fresh *processes* for the hash seeds).
 //! Two probe calls expose leaked thread-local state at the API boundary only:
 //! a `Deserialize` impl that immediately returns `Error::missing_field` (its
@@ -36,7 +43,7 @@ use serde::de::{self, DeserializeOwned, Deserializer, MapAccess, Visitor};
 use serde::{Deserialize, Serialize};
 use serde_json::{Value, json};
 use serde_saphyr::{
-    ArcAnchor, ArcWeakAnchor, Budget, Error, Options, RcAnchor, RcRecursion, RcRecursive, RcWeakAnchor,
+    ArcAnchor, ArcRecursion, ArcRecursive, ArcWeakAnchor, Budget, Error, Options, RcAnchor, RcRecursion, RcRecursive, RcWeakAnchor,
 };
 use std::cell::{Cell, RefCell};
 use std::collections::HashMap;
@@ -78,11 +85,13 @@ fn custom_err(msg: &str) -> Error {
 
 /// A call of the alphabet: a base call of the table, or an outer parse of kind
 /// `k` through entry point `e` whose `Deserialize` impl performs the listed
-/// calls (nested) in the middle of the outer document.
+/// calls (nested) at a kind-specific position of the outer document; mode
+/// `m = exit * 2 + where` says how the nesting type ends (Ok / Err / panic) and
+/// on which thread the nested calls run.
 #[derive(Clone, Debug, PartialEq, Eq, Hash, PartialOrd, Ord)]
 enum Call {
     Base(usize),
-    Nest(usize, usize, Vec<Call>),
+    Nest(usize, usize, usize, Vec<Call>),
 }
 
 impl Call {
@@ -90,19 +99,19 @@ impl Call {
     fn enc(&self) -> String {
         match self {
             Call::Base(i) => i.to_string(),
-            Call::Nest(k, e, inner) => format!("N{k}.{e}({})", enc_list(inner)),
+            Call::Nest(k, e, m, inner) => format!("N{k}.{e}.{m}({})", enc_list(inner)),
         }
     }
     fn name(&self) -> String {
         match self {
             Call::Base(i) => table()[*i].name.clone(),
-            Call::Nest(k, e, _) => format!("nest-{}@{}", NEST_KINDS[*k], ENTRIES[*e]),
+            Call::Nest(k, e, m, _) => format!("nest-{}@{}/{}/{}", NEST_KINDS[*k], ENTRIES[*e], EXITS[*m / 2], WHERES[*m % 2]),
         }
     }
     fn depth(&self) -> usize {
         match self {
             Call::Base(_) => 0,
-            Call::Nest(_, _, v) => 1 + v.iter().map(|c| c.depth()).max().unwrap_or(0),
+            Call::Nest(_, _, _, v) => 1 + v.iter().map(|c| c.depth()).max().unwrap_or(0),
         }
     }
 }
@@ -150,6 +159,11 @@ fn parse_call_at(b: &[u8], pos: &mut usize) -> Option<Call> {
         }
         *pos += 1;
         let e = parse_num(b, pos)?;
+        if b.get(*pos) != Some(&b'.') {
+            return None;
+        }
+        *pos += 1;
+        let m = parse_num(b, pos)?;
         if b.get(*pos) != Some(&b'(') {
             return None;
         }
@@ -159,10 +173,10 @@ fn parse_call_at(b: &[u8], pos: &mut usize) -> Option<Call> {
             return None;
         }
         *pos += 1;
-        if k >= NEST_KINDS.len() || e >= ENTRIES.len() {
+        if k >= NEST_KINDS.len() || e >= ENTRIES.len() || m >= NEST_MODES {
             return None;
         }
-        Some(Call::Nest(k, e, inner))
+        Some(Call::Nest(k, e, m, inner))
     } else {
         let i = parse_num(b, pos)?;
         if i >= table().len() {
@@ -177,15 +191,35 @@ thread_local! {
     static CONST_MODE: Cell<bool> = const { Cell::new(false) };
     /// outcomes of the nested calls performed by the innermost running outer call
     static INNER_LOG: RefCell<Vec<Value>> = const { RefCell::new(Vec::new()) };
-    /// iterator kept alive across the following calls of a history (harness state only)
-    static HELD_ITER: RefCell<Option<HeldIter>> = const { RefCell::new(None) };
+    /// iterators kept alive across the following calls of a history (harness state only)
+    static HELD: RefCell<[Option<Held>; 3]> = const { RefCell::new([None, None, None]) };
     /// payloads of type `Dropper` dropped on this thread
     static DROPS: Cell<u64> = const { Cell::new(0) };
     /// number of real nested executions on this thread (evidence)
     static NESTED_EXECS: Cell<u64> = const { Cell::new(0) };
 }
 
-type HeldIter = Box<dyn Iterator<Item = Result<Vec<RcAnchor<String>>, Error>>>;
+type HeldIter = Box<dyn Iterator<Item = Value>>;
+
+/// A `read*` iterator together with the reader it borrows (freed after the iterator).
+struct Held {
+    pos: usize,
+    it: Option<HeldIter>,
+    rd: *mut &'static [u8],
+}
+impl Drop for Held {
+    fn drop(&mut self) {
+        self.it = None;
+        // SAFETY: `rd` came from Box::into_raw in `open_stream` and only the iterator dropped above borrowed it.
+        unsafe { drop(Box::from_raw(self.rd)) };
+    }
+}
+
+/// Calls whose baseline is kept for the whole run (everything else is recomputed when needed).
+fn registered() -> &'static Mutex<std::collections::HashSet<Call>> {
+    static R: OnceLock<Mutex<std::collections::HashSet<Call>>> = OnceLock::new();
+    R.get_or_init(|| Mutex::new(std::collections::HashSet::new()))
+}
 
 fn baselines() -> &'static Mutex<HashMap<Call, Value>> {
     static B: OnceLock<Mutex<HashMap<Call, Value>>> = OnceLock::new();
@@ -194,6 +228,7 @@ fn baselines() -> &'static Mutex<HashMap<Call, Value>> {
 
 /// Run `f` on a brand-new thread (clean thread-locals of the library and of the harness).
 fn fresh<T: Send>(f: impl FnOnce() -> T + Send) -> T {
+    HOT_FRESH_THREADS.fetch_add(1, std::sync::atomic::Ordering::Relaxed);
     std::thread::scope(|s| {
         std::thread::Builder::new()
             .stack_size(32 << 20)
@@ -210,14 +245,18 @@ fn baseline(c: &Call) -> Value {
         return v.clone();
     }
     let v = fresh(|| exec(c));
-    baselines().lock().unwrap().entry(c.clone()).or_insert(v).clone()
+    if matches!(c, Call::Base(_)) || registered().lock().unwrap().contains(c) {
+        baselines().lock().unwrap().entry(c.clone()).or_insert(v).clone()
+    } else {
+        v
+    }
 }
 
 /// Execute one call; a panic that escapes the call is an outcome of its own.
 fn exec(c: &Call) -> Value {
     match vcore::obs::catch(|| match c {
         Call::Base(i) => (table()[*i].f)(),
-        Call::Nest(k, e, inner) => run_nest(*k, *e, inner),
+        Call::Nest(k, e, m, inner) => run_nest(*k, *e, *m, inner),
     }) {
         Ok(v) => v,
         Err(p) => json!({"lib_panic": p}),
@@ -415,6 +454,43 @@ struct KingdomBad {
     king: RcRecursive<KingBad>,
 }
 
+// --- Arc recursive
+#[derive(Deserialize)]
+struct KingArc {
+    name: String,
+    coronator: ArcRecursion<KingArc>,
+}
+#[derive(Deserialize)]
+struct KingdomArc {
+    king: ArcRecursive<KingArc>,
+}
+#[derive(Deserialize)]
+struct StrongWeak {
+    strong: RcAnchor<String>,
+    weak: RcWeakAnchor<String>,
+    again: RcAnchor<String>,
+}
+#[derive(Serialize)]
+struct KingS {
+    name: String,
+    coronator: RcRecursion<KingS>,
+}
+#[derive(Serialize)]
+struct KingdomS {
+    king: RcRecursive<KingS>,
+}
+#[derive(Serialize)]
+struct SerPair {
+    a: RcAnchor<String>,
+    b: RcAnchor<String>,
+}
+#[derive(Serialize)]
+struct SerArcPair {
+    a: ArcAnchor<String>,
+    b: ArcAnchor<String>,
+    w: ArcWeakAnchor<String>,
+}
+
 // --- probes for the fallback location
 struct ProbeMissing;
 impl<'de> Deserialize<'de> for ProbeMissing {
@@ -455,6 +531,7 @@ struct PanicDoc {
     items: Vec<RcAnchor<String>>,
     boom: RcAnchor<BoomMap>,
 }
+impl_tgt!(PanicDoc);
 
 // --- payload with a Drop counter
 struct Dropper(String);
@@ -494,50 +571,161 @@ struct SerFailDoc {
 
 // ------------------------------------------------------------------ nested calls
 
-/// Performs the calls listed in its scalar (nested, in the middle of the outer document).
+/// How the type that performs the nested calls ends: Ok / Err (a serde static constructor, its
+/// location comes from the fallback thread-local) / panic (unwinds through the outer call).
+const EXITS: &[&str] = &["ok", "err", "panic"];
+/// Where the nested calls run: on the thread of the outer call, or on a freshly spawned thread
+/// while the outer call is suspended in the middle of its document.
+const WHERES: &[&str] = &["same-thread", "other-thread"];
+const NEST_MODES: usize = 6; // exit * 2 + where
+const NEST_PANIC: &str = "c15 nest boom";
+
+fn nest_scalar(m: usize, inner: &[Call]) -> String {
+    format!("{}{}|{}", m / 2, m % 2, enc_list(inner))
+}
+
+/// Perform the nested calls described by `"<exit><where>|<list>"`; returns the exit kind.
+fn perform_nested(s: &str) -> Option<usize> {
+    let (head, list) = s.split_once('|')?;
+    let mut hc = head.chars();
+    let x = hc.next()?.to_digit(10)? as usize;
+    let w = hc.next()?.to_digit(10)? as usize;
+    if hc.next().is_some() || x >= EXITS.len() || w >= WHERES.len() {
+        return None;
+    }
+    let calls = parse_list(list)?;
+    let constant = CONST_MODE.with(|c| c.get());
+    for c in &calls {
+        let v = if constant {
+            baseline(c)
+        } else {
+            NESTED_EXECS.with(|n| n.set(n.get() + 1));
+            if w == 1 { fresh(|| exec(c)) } else { exec(c) }
+        };
+        INNER_LOG.with(|l| l.borrow_mut().push(v));
+    }
+    Some(x)
+}
+
+fn finish_nested<E: de::Error>(exit: Option<usize>) -> Result<(), E> {
+    match exit {
+        None => Err(E::custom("harness: bad nest scalar")),
+        Some(0) => Ok(()),
+        Some(1) => Err(E::missing_field("after_nest")),
+        Some(_) => panic!("{NEST_PANIC}"),
+    }
+}
+
+/// Performs the calls listed in its scalar (nested, at its position in the outer document).
 struct NestV;
 impl<'de> Deserialize<'de> for NestV {
     fn deserialize<D: Deserializer<'de>>(d: D) -> Result<Self, D::Error> {
         let s = String::deserialize(d)?;
-        let calls = parse_list(&s).ok_or_else(|| <D::Error as de::Error>::custom("harness: bad nest list"))?;
-        let constant = CONST_MODE.with(|c| c.get());
-        for c in &calls {
-            let v = if constant {
-                baseline(c)
-            } else {
-                NESTED_EXECS.with(|n| n.set(n.get() + 1));
-                exec(c)
-            };
-            INNER_LOG.with(|l| l.borrow_mut().push(v));
-        }
+        finish_nested::<D::Error>(perform_nested(&s))?;
         Ok(NestV)
     }
 }
-/// Same, then fails with a serde static constructor (location comes from the fallback thread-local).
-struct NestFail;
-impl<'de> Deserialize<'de> for NestFail {
+
+/// A mapping key that performs nested calls while the key is being deserialized.
+#[derive(PartialEq, Eq, PartialOrd, Ord)]
+struct NestKey(String);
+impl<'de> Deserialize<'de> for NestKey {
     fn deserialize<D: Deserializer<'de>>(d: D) -> Result<Self, D::Error> {
-        NestV::deserialize(d)?;
-        Err(<D::Error as de::Error>::missing_field("after_nest"))
+        let s = String::deserialize(d)?;
+        if s.contains('|') {
+            finish_nested::<D::Error>(perform_nested(&s))?;
+        }
+        Ok(NestKey(s))
     }
 }
 
 const NEST_KINDS: &[&str] = &[
+    // nested calls in the middle of anchored material
     "plain",
     "in-anchored-ctx",
-    "then-fail",
     "weak-after",
     "arc",
     "recursive",
-    "in-seq-of-anchors",
-    // the nested calls come FIRST: before the outer document stored any anchor, outside any wrapper
+    "arc-recursive",
+    "in-tuple",
+    "in-map-key",
+    // nested calls FIRST: before the outer document stored any anchor, outside any wrapper
     "first-rc",
     "first-arc",
     "first-rc-u32",
-    "first-in-seq",
+    "first-in-tuple",
     "first-recursive",
+    "first-arc-recursive",
+    // nested calls made by the closure of with_deserializer_from_* before it deserializes
+    "closure-before",
 ];
 
+#[derive(Deserialize)]
+struct OuterPlain {
+    pre: RcAnchor<String>,
+    #[allow(dead_code)]
+    n: NestV,
+    post: RcAnchor<String>,
+    more: Vec<RcAnchor<String>>,
+}
+#[derive(Deserialize)]
+struct Holder {
+    a: RcAnchor<String>,
+    #[allow(dead_code)]
+    n: NestV,
+    b: RcAnchor<String>,
+}
+#[derive(Deserialize)]
+struct OuterAnch {
+    head: RcAnchor<Holder>,
+    tail: RcAnchor<Holder>,
+    again: RcAnchor<String>,
+}
+#[derive(Deserialize)]
+struct OuterWeak {
+    pre: RcAnchor<String>,
+    #[allow(dead_code)]
+    n: NestV,
+    w: RcWeakAnchor<String>,
+}
+#[derive(Deserialize)]
+struct OuterArc {
+    pre: ArcAnchor<String>,
+    #[allow(dead_code)]
+    n: NestV,
+    post: ArcAnchor<String>,
+    w: ArcWeakAnchor<String>,
+}
+#[derive(Deserialize)]
+struct King2 {
+    name: String,
+    #[allow(dead_code)]
+    n: NestV,
+    coronator: RcRecursion<King2>,
+}
+#[derive(Deserialize)]
+struct Kingdom2 {
+    king: RcRecursive<King2>,
+}
+#[derive(Deserialize)]
+struct KingArc2 {
+    name: String,
+    #[allow(dead_code)]
+    n: NestV,
+    coronator: ArcRecursion<KingArc2>,
+}
+#[derive(Deserialize)]
+struct KingdomArc2 {
+    king: ArcRecursive<KingArc2>,
+}
+#[derive(Deserialize)]
+struct TupMid(RcAnchor<String>, RcAnchor<String>, #[allow(dead_code)] NestV, RcAnchor<String>, RcAnchor<String>, RcAnchor<String>);
+#[derive(Deserialize)]
+struct OuterKeyed {
+    pre: RcAnchor<String>,
+    m: std::collections::BTreeMap<NestKey, RcAnchor<String>>,
+    post: RcAnchor<String>,
+}
 #[derive(Deserialize)]
 struct OuterFirst {
     #[allow(dead_code)]
@@ -561,219 +749,175 @@ struct OuterFirstU32 {
     post: RcAnchor<u32>,
 }
 #[derive(Deserialize)]
+struct TupFirst(#[allow(dead_code)] NestV, RcAnchor<String>, RcAnchor<String>, RcAnchor<String>);
+#[derive(Deserialize)]
 struct KingdomFirst {
     #[allow(dead_code)]
     n: NestV,
     king: RcRecursive<King>,
 }
-
 #[derive(Deserialize)]
-struct OuterPlain {
-    pre: RcAnchor<String>,
+struct KingdomArcFirst {
     #[allow(dead_code)]
     n: NestV,
+    king: ArcRecursive<KingArc>,
+}
+#[derive(Deserialize)]
+struct OuterNoNest {
+    pre: RcAnchor<String>,
     post: RcAnchor<String>,
     more: Vec<RcAnchor<String>>,
 }
-impl_tgt!(OuterPlain);
+impl_tgt!(OuterPlain, OuterAnch, OuterWeak, OuterArc, Kingdom2, KingdomArc2, TupMid, OuterKeyed, OuterFirst, OuterFirstArc, OuterFirstU32, TupFirst, KingdomFirst, KingdomArcFirst);
 
-#[derive(Deserialize)]
-struct Holder {
-    a: RcAnchor<String>,
-    #[allow(dead_code)]
-    n: NestV,
-    b: RcAnchor<String>,
-}
-#[derive(Deserialize)]
-struct OuterAnch {
-    head: RcAnchor<Holder>,
-    tail: RcAnchor<Holder>,
-    again: RcAnchor<String>,
-}
-
-#[derive(Deserialize)]
-#[allow(dead_code)]
-struct OuterFail {
-    pre: RcAnchor<String>,
-    n: NestFail,
-    post: RcAnchor<String>,
-}
-
-#[derive(Deserialize)]
-struct OuterWeak {
-    pre: RcAnchor<String>,
-    #[allow(dead_code)]
-    n: NestV,
-    w: RcWeakAnchor<String>,
-}
-
-#[derive(Deserialize)]
-struct OuterArc {
-    pre: ArcAnchor<String>,
-    #[allow(dead_code)]
-    n: NestV,
-    post: ArcAnchor<String>,
-    w: ArcWeakAnchor<String>,
-}
-
-#[derive(Deserialize)]
-struct King2 {
-    name: String,
-    #[allow(dead_code)]
-    n: NestV,
-    coronator: RcRecursion<King2>,
-}
-#[derive(Deserialize)]
-struct Kingdom2 {
-    king: RcRecursive<King2>,
-}
-
-#[derive(Deserialize)]
-#[serde(untagged)]
-enum SeqItem {
-    // a map {n: "<list>"} performs the nested calls; anything else is a shared string
-    N {
-        #[allow(dead_code)]
-        n: NestV,
-    },
-    S(RcAnchor<String>),
-}
-
-/// The outer document of a nested call: anchors before and aliases after the field whose
-/// `Deserialize` impl performs the nested calls.
-fn nest_doc(k: usize, inner: &[Call]) -> String {
-    let list = enc_list(inner);
+/// The outer document of a nested call; `sc` is the scalar that makes the nested calls happen.
+fn nest_doc(k: usize, sc: &str) -> String {
     match k {
-        0 => format!("pre: &a pv\nn: \"{list}\"\npost: *a\nmore: [&b q, *b, *a, r]\n"),
-        1 => format!("head: &h\n  a: &a pv\n  n: \"{list}\"\n  b: *a\ntail: *h\nagain: *a\n"),
-        2 => format!("pre: &a pv\nn: \"{list}\"\npost: *a\n"),
-        3 => format!("pre: &a pv\nn: \"{list}\"\nw: *a\n"),
-        4 => format!("pre: &a pv\nn: \"{list}\"\npost: *a\nw: *a\n"),
-        5 => format!("king: &root\n  name: Aurelian\n  n: \"{list}\"\n  coronator: *root\n"),
-        6 => format!("- &a pv\n- *a\n- {{n: \"{list}\"}}\n- *a\n- &b q\n- {{n: \"{list}\"}}\n- *b\n- *a\n"),
-        7 => format!("n: \"{list}\"\npre: &a outer-value\npost: *a\nmore: [&b q, *b, *a, r]\n"),
-        8 => format!("n: \"{list}\"\npre: &a outer-value\npost: *a\n"),
-        9 => format!("n: \"{list}\"\npre: &a 41\npost: *a\n"),
-        10 => format!("- {{n: \"{list}\"}}\n- &a outer-value\n- *a\n- &b q\n- *b\n- r\n"),
-        _ => format!("n: \"{list}\"\nking: &root\n  name: Outer\n  coronator: *root\n"),
+        0 => format!("pre: &a pv\nn: \"{sc}\"\npost: *a\nmore: [&b q, *b, *a, r]\n"),
+        1 => format!("head: &h\n  a: &a pv\n  n: \"{sc}\"\n  b: *a\ntail: *h\nagain: *a\n"),
+        2 => format!("pre: &a pv\nn: \"{sc}\"\nw: *a\n"),
+        3 => format!("pre: &a pv\nn: \"{sc}\"\npost: *a\nw: *a\n"),
+        4 | 5 => format!("king: &root\n  name: Aurelian\n  n: \"{sc}\"\n  coronator: *root\n"),
+        6 => format!("[&a pv, *a, \"{sc}\", *a, &b q, *b]\n"),
+        7 => format!("pre: &a pv\nm:\n  \"{sc}\": *a\n  zz: &b q\npost: *b\n"),
+        8 => format!("n: \"{sc}\"\npre: &a outer-value\npost: *a\nmore: [&b q, *b, *a, r]\n"),
+        9 => format!("n: \"{sc}\"\npre: &a outer-value\npost: *a\n"),
+        10 => format!("n: \"{sc}\"\npre: &a 41\npost: *a\n"),
+        11 => format!("[\"{sc}\", &a outer-value, *a, r]\n"),
+        12 | 13 => format!("n: \"{sc}\"\nking: &root\n  name: Outer\n  coronator: *root\n"),
+        _ => "pre: &a outer-value\npost: *a\nmore: [&b q, *b, *a, r]\n".to_string(),
     }
 }
 
-fn run_nest(k: usize, e: usize, inner: &[Call]) -> Value {
-    let saved = INNER_LOG.with(|l| std::mem::take(&mut *l.borrow_mut()));
-    let doc = nest_doc(k, inner);
-    let outer = match k {
-        0 => {
-            match parse_via::<OuterPlain>(e, &doc) {
-                Ok(d) => json!({"ok": strs_out(std::iter::once(&d.pre).chain(std::iter::once(&d.post)).chain(d.more.iter()))}),
-                Err(e) => err_json(&e),
-            }
-        }
-        1 => {
-            match serde_saphyr::from_str::<OuterAnch>(&doc) {
-                Ok(d) => {
-                    let mut o = strs_out([&d.head.a, &d.head.b, &d.tail.a, &d.tail.b, &d.again]);
-                    o["classes_holder"] = json!(classes([Rc::as_ptr(&d.head.0) as usize, Rc::as_ptr(&d.tail.0) as usize]));
-                    json!({"ok": o})
-                }
-                Err(e) => err_json(&e),
-            }
-        }
-        2 => {
-            match serde_saphyr::from_str::<OuterFail>(&doc) {
-                Ok(_) => json!({"ok": "unexpected"}),
-                Err(e) => err_json(&e),
-            }
-        }
-        3 => {
-            match serde_saphyr::from_str::<OuterWeak>(&doc) {
-                Ok(d) => {
-                    let up = d.w.upgrade();
-                    json!({"ok": {
-                        "values": [(*d.pre.0).clone(), up.as_ref().map(|r| (**r).clone()).unwrap_or_else(|| "<dangling>".into())],
-                        "classes": classes([Rc::as_ptr(&d.pre.0) as usize, up.as_ref().map(|r| Rc::as_ptr(r) as usize).unwrap_or(0)]),
-                    }})
-                }
-                Err(e) => err_json(&e),
-            }
-        }
-        4 => {
-            match serde_saphyr::from_str::<OuterArc>(&doc) {
-                Ok(d) => {
-                    let up = d.w.upgrade();
-                    json!({"ok": {
-                        "values": [(*d.pre.0).clone(), (*d.post.0).clone(), up.as_ref().map(|r| (**r).clone()).unwrap_or_else(|| "<dangling>".into())],
-                        "classes": classes([Arc::as_ptr(&d.pre.0) as usize, Arc::as_ptr(&d.post.0) as usize, up.as_ref().map(|r| Arc::as_ptr(r) as usize).unwrap_or(0)]),
-                    }})
-                }
-                Err(e) => err_json(&e),
-            }
-        }
-        5 => {
-            match serde_saphyr::from_str::<Kingdom2>(&doc) {
-                Ok(d) => {
-                    let king = d.king.borrow();
-                    let cor = king.coronator.upgrade();
-                    json!({"ok": {
-                        "values": [king.name.clone(), cor.as_ref().map(|c| c.borrow().name.clone()).unwrap_or_else(|| "<dangling>".into())],
-                        "classes": classes([Rc::as_ptr(&d.king.0) as usize, cor.as_ref().map(|c| Rc::as_ptr(&c.0) as usize).unwrap_or(0)]),
-                    }})
-                }
-                Err(e) => err_json(&e),
-            }
-        }
-        7 => match serde_saphyr::from_str::<OuterFirst>(&doc) {
-            Ok(d) => json!({"ok": strs_out(std::iter::once(&d.pre).chain(std::iter::once(&d.post)).chain(d.more.iter()))}),
-            Err(e) => err_json(&e),
-        },
-        8 => match serde_saphyr::from_str::<OuterFirstArc>(&doc) {
-            Ok(d) => json!({"ok": {
-                "values": [(*d.pre.0).clone(), (*d.post.0).clone()],
-                "strong_counts": [Arc::strong_count(&d.pre.0), Arc::strong_count(&d.post.0)],
-                "classes": classes([Arc::as_ptr(&d.pre.0) as usize, Arc::as_ptr(&d.post.0) as usize]),
-            }}),
-            Err(e) => err_json(&e),
-        },
-        9 => match serde_saphyr::from_str::<OuterFirstU32>(&doc) {
-            Ok(d) => json!({"ok": {
-                "values": [*d.pre.0, *d.post.0],
-                "strong_counts": [Rc::strong_count(&d.pre.0), Rc::strong_count(&d.post.0)],
-                "classes": classes([Rc::as_ptr(&d.pre.0) as usize, Rc::as_ptr(&d.post.0) as usize]),
-            }}),
-            Err(e) => err_json(&e),
-        },
-        11 => match serde_saphyr::from_str::<KingdomFirst>(&doc) {
-            Ok(d) => {
-                let strong = Rc::strong_count(&d.king.0);
-                let king = d.king.borrow();
-                let cor = king.coronator.upgrade();
-                json!({"ok": {
-                    "values": [king.name.clone(), cor.as_ref().map(|c| c.borrow().name.clone()).unwrap_or_else(|| "<dangling>".into())],
-                    "strong_counts": [strong],
-                    "classes": classes([Rc::as_ptr(&d.king.0) as usize, cor.as_ref().map(|c| Rc::as_ptr(&c.0) as usize).unwrap_or(0)]),
-                }})
-            }
-            Err(e) => err_json(&e),
-        },
+fn rc_u32_out(all: &[&RcAnchor<u32>]) -> Value {
+    let cls = classes(all.iter().map(|a| Rc::as_ptr(&a.0) as usize));
+    json!({
+        "values": all.iter().map(|a| *a.0).collect::<Vec<u32>>(),
+        "strong": strong_per_class(&cls, all.iter().map(|a| Rc::strong_count(&a.0))),
+        "classes": cls,
+    })
+}
+
+fn arc_strs_out(all: &[&ArcAnchor<String>], weak: Option<&ArcWeakAnchor<String>>) -> Value {
+    let strong: Vec<usize> = all.iter().map(|a| Arc::strong_count(&a.0)).collect();
+    let up = weak.map(|w| w.upgrade());
+    let mut values: Vec<String> = all.iter().map(|a| (*a.0).clone()).collect();
+    let mut ptrs: Vec<usize> = all.iter().map(|a| Arc::as_ptr(&a.0) as usize).collect();
+    if let Some(up) = &up {
+        values.push(up.as_ref().map(|r| (**r).clone()).unwrap_or_else(|| "<dangling>".into()));
+        ptrs.push(up.as_ref().map(|r| Arc::as_ptr(r) as usize).unwrap_or(0));
+    }
+    json!({"values": values, "strong_counts": strong, "classes": classes(ptrs)})
+}
+
+fn ok_or_err(r: Result<Value, Error>) -> Value {
+    match r {
+        Ok(v) => json!({"ok": v}),
+        Err(e) => err_json(&e),
+    }
+}
+
+fn run_outer(k: usize, e: usize, sc: &str, doc: &str) -> Value {
+    match k {
+        0 => ok_or_err(parse_via::<OuterPlain>(e, doc).map(|d| strs_out(std::iter::once(&d.pre).chain(std::iter::once(&d.post)).chain(d.more.iter())))),
+        1 => ok_or_err(parse_via::<OuterAnch>(e, doc).map(|d| {
+            let mut o = strs_out([&d.head.a, &d.head.b, &d.tail.a, &d.tail.b, &d.again]);
+            o["classes_holder"] = json!(classes([Rc::as_ptr(&d.head.0) as usize, Rc::as_ptr(&d.tail.0) as usize]));
+            o["strong_holder"] = json!(Rc::strong_count(&d.head.0));
+            o
+        })),
+        2 => ok_or_err(parse_via::<OuterWeak>(e, doc).map(|d| {
+            let strong = Rc::strong_count(&d.pre.0);
+            let up = d.w.upgrade();
+            json!({
+                "values": [(*d.pre.0).clone(), up.as_ref().map(|r| (**r).clone()).unwrap_or_else(|| "<dangling>".into())],
+                "strong_counts": [strong],
+                "classes": classes([Rc::as_ptr(&d.pre.0) as usize, up.as_ref().map(|r| Rc::as_ptr(r) as usize).unwrap_or(0)]),
+            })
+        })),
+        3 => ok_or_err(parse_via::<OuterArc>(e, doc).map(|d| arc_strs_out(&[&d.pre, &d.post], Some(&d.w)))),
+        4 => ok_or_err(parse_via::<Kingdom2>(e, doc).map(|d| {
+            let strong = Rc::strong_count(&d.king.0);
+            let king = d.king.borrow();
+            let cor = king.coronator.upgrade();
+            json!({
+                "values": [king.name.clone(), cor.as_ref().map(|c| c.borrow().name.clone()).unwrap_or_else(|| "<dangling>".into())],
+                "strong_counts": [strong],
+                "classes": classes([Rc::as_ptr(&d.king.0) as usize, cor.as_ref().map(|c| Rc::as_ptr(&c.0) as usize).unwrap_or(0)]),
+            })
+        })),
+        5 => ok_or_err(parse_via::<KingdomArc2>(e, doc).map(|d| {
+            let strong = Arc::strong_count(&d.king.0);
+            let name = d.king.lock().unwrap().as_ref().map(|k| k.name.clone());
+            let cor = d.king.lock().unwrap().as_ref().and_then(|k| k.coronator.upgrade());
+            let cname = cor.as_ref().and_then(|c| c.lock().unwrap().as_ref().map(|k| k.name.clone()));
+            json!({
+                "values": [name, cname],
+                "strong_counts": [strong],
+                "classes": classes([Arc::as_ptr(&d.king.0) as usize, cor.as_ref().map(|c| Arc::as_ptr(&c.0) as usize).unwrap_or(0)]),
+            })
+        })),
+        6 => ok_or_err(parse_via::<TupMid>(e, doc).map(|d| strs_out([&d.0, &d.1, &d.3, &d.4, &d.5]))),
+        7 => ok_or_err(parse_via::<OuterKeyed>(e, doc).map(|d| {
+            let mut o = strs_out(std::iter::once(&d.pre).chain(d.m.values()).chain(std::iter::once(&d.post)));
+            o["keys"] = json!(d.m.len());
+            o
+        })),
+        8 => ok_or_err(parse_via::<OuterFirst>(e, doc).map(|d| strs_out(std::iter::once(&d.pre).chain(std::iter::once(&d.post)).chain(d.more.iter())))),
+        9 => ok_or_err(parse_via::<OuterFirstArc>(e, doc).map(|d| arc_strs_out(&[&d.pre, &d.post], None))),
+        10 => ok_or_err(parse_via::<OuterFirstU32>(e, doc).map(|d| rc_u32_out(&[&d.pre, &d.post]))),
+        11 => ok_or_err(parse_via::<TupFirst>(e, doc).map(|d| strs_out([&d.1, &d.2, &d.3]))),
+        12 => ok_or_err(parse_via::<KingdomFirst>(e, doc).map(|d| {
+            let strong = Rc::strong_count(&d.king.0);
+            let king = d.king.borrow();
+            let cor = king.coronator.upgrade();
+            json!({
+                "values": [king.name.clone(), cor.as_ref().map(|c| c.borrow().name.clone()).unwrap_or_else(|| "<dangling>".into())],
+                "strong_counts": [strong],
+                "classes": classes([Rc::as_ptr(&d.king.0) as usize, cor.as_ref().map(|c| Rc::as_ptr(&c.0) as usize).unwrap_or(0)]),
+            })
+        })),
+        13 => ok_or_err(parse_via::<KingdomArcFirst>(e, doc).map(|d| king_arc_out(&d.king))),
         _ => {
-            // 6 and 10: a sequence whose map items perform the nested calls
-            match serde_saphyr::from_str::<Vec<SeqItem>>(&doc) {
-                Ok(v) => {
-                    let strs: Vec<&RcAnchor<String>> = v
-                        .iter()
-                        .filter_map(|i| match i {
-                            SeqItem::S(s) => Some(s),
-                            SeqItem::N { .. } => None,
-                        })
-                        .collect();
-                    json!({"ok": strs_out(strs)})
-                }
-                Err(e) => err_json(&e),
-            }
+            // the closure of with_deserializer_* performs the nested calls, then deserializes
+            let f = |de: serde_saphyr::Deserializer<'_, '_>| -> Result<OuterNoNest, Error> {
+                finish_nested::<Error>(perform_nested(sc))?;
+                OuterNoNest::deserialize(de)
+            };
+            let r = match e % 3 {
+                0 => serde_saphyr::with_deserializer_from_str(doc, f),
+                1 => serde_saphyr::with_deserializer_from_slice(doc.as_bytes(), f),
+                _ => serde_saphyr::with_deserializer_from_reader(doc.as_bytes(), f),
+            };
+            ok_or_err(r.map(|d| strs_out(std::iter::once(&d.pre).chain(std::iter::once(&d.post)).chain(d.more.iter()))))
         }
-    };
+    }
+}
+
+fn king_arc_out(k: &ArcRecursive<KingArc>) -> Value {
+    let strong = Arc::strong_count(&k.0);
+    let name = k.lock().unwrap().as_ref().map(|k| k.name.clone());
+    let cor = k.lock().unwrap().as_ref().and_then(|k| k.coronator.upgrade());
+    let cname = cor.as_ref().and_then(|c| c.lock().unwrap().as_ref().map(|k| k.name.clone()));
+    json!({
+        "values": [name, cname],
+        "strong_counts": [strong],
+        "classes": classes([Arc::as_ptr(&k.0) as usize, cor.as_ref().map(|c| Arc::as_ptr(&c.0) as usize).unwrap_or(0)]),
+    })
+}
+
+fn run_nest(k: usize, e: usize, m: usize, inner: &[Call]) -> Value {
+    let saved = INNER_LOG.with(|l| std::mem::take(&mut *l.borrow_mut()));
+    let sc = nest_scalar(m, inner);
+    let doc = nest_doc(k, &sc);
+    let res = vcore::obs::catch(|| run_outer(k, e, &sc, &doc));
     let mine = INNER_LOG.with(|l| std::mem::replace(&mut *l.borrow_mut(), saved));
-    json!({"outer": outer, "inner": mine})
+    match res {
+        Ok(outer) => json!({"outer": outer, "inner": mine}),
+        // the harness' own nested type asked for it: the panic went through the outer call
+        Err(p) if p.starts_with(NEST_PANIC) => json!({"outer": {"panic": NEST_PANIC}, "inner": mine}),
+        Err(p) => json!({"lib_panic": p}),
+    }
 }
 
 // ------------------------------------------------------------------ the table of base calls
@@ -817,6 +961,98 @@ fn budget_call(max_nodes: Option<usize>, replay_limit: Option<usize>, doc: &'sta
 }
 
 const BUDGET_DOC: &str = "- &a [p, q, r]\n- *a\n- &b [s]\n- *b\n- *a\n";
+
+const PANIC_DOC: &str = "first: &a x\nitems: [*a, &b y]\nboom: &c {k: v, k2: v2}\n";
+
+fn ser_out(r: Result<String, serde_saphyr::ser::Error>) -> Value {
+    match r {
+        Ok(s) => json!({"ok": {"text": s}}),
+        Err(e) => json!({"err": {"kind": "ser", "loc": null, "msg": e.to_string()}}),
+    }
+}
+
+const STREAMS: [&str; 3] = [
+    STREAM,
+    "- &a p\n- *a\n---\n- &a q\n- &b r\n- *b\n- *a\n---\n- &c s\n- *c\n- t\n",
+    "- &a [p]\n- *a\n---\n- &a [p, q, r]\n- *a\n- *a\n- [s, t]\n---\n- &a [u]\n- *a\n",
+];
+
+fn open_stream(st: usize) -> (HeldIter, *mut &'static [u8]) {
+    let rd: *mut &'static [u8] = Box::into_raw(Box::new(STREAMS[st].as_bytes()));
+    // SAFETY: freed by `Held::drop` after the iterator that borrows it
+    let r: &'static mut &'static [u8] = unsafe { &mut *rd };
+    let it: HeldIter = match st {
+        0 => Box::new(serde_saphyr::read::<_, Vec<RcAnchor<String>>>(r).map(vec_out)),
+        1 => Box::new(serde_saphyr::read::<_, Vec<ArcAnchor<String>>>(r).map(|x| match x {
+            Ok(v) => {
+                let refs: Vec<&ArcAnchor<String>> = v.iter().collect();
+                json!({"ok": arc_strs_out(&refs, None)})
+            }
+            Err(e) => err_json(&e),
+        })),
+        _ => {
+            // per-document budget with a report callback: counters must restart per document
+            let rep: Rc<RefCell<Vec<String>>> = Rc::new(RefCell::new(Vec::new()));
+            let r2 = rep.clone();
+            #[allow(deprecated)]
+            let o = {
+                let mut o = Options::default().with_budget_report(move |r| r2.borrow_mut().push(format!("{r:?}")));
+                o.budget = Some(Budget { max_nodes: 9, ..Budget::default() });
+                o
+            };
+            Box::new(serde_saphyr::read_with_options::<_, Vec<RcAnchor<Vec<String>>>>(r, o).map(move |x| {
+                let mut out = match x {
+                    Ok(v) => {
+                        let cls = classes(v.iter().map(|a| Rc::as_ptr(&a.0) as usize));
+                        json!({"ok": {
+                            "values": v.iter().map(|a| (*a.0).clone()).collect::<Vec<_>>(),
+                            "strong": strong_per_class(&cls, v.iter().map(|a| Rc::strong_count(&a.0))),
+                            "classes": cls,
+                        }})
+                    }
+                    Err(e) => err_json(&e),
+                };
+                out["reports_so_far"] = json!(rep.borrow().clone());
+                out
+            }))
+        }
+    };
+    (it, rd)
+}
+
+fn iter_item(st: usize, j: usize) -> Value {
+    let held = HELD.with(|h| h.borrow_mut()[st].take());
+    let mut held = match held {
+        Some(h) if h.pos == j => h,
+        other => {
+            drop(other); // abandoned half-way
+            let (mut it, rd) = open_stream(st);
+            for _ in 0..j {
+                let _ = it.next();
+            }
+            Held { pos: j, it: Some(it), rd }
+        }
+    };
+    let v = held.it.as_mut().and_then(|it| it.next());
+    held.pos = j + 1;
+    HELD.with(|h| h.borrow_mut()[st] = Some(held));
+    json!({"item": v})
+}
+
+#[allow(deprecated)]
+fn budget_multi_call() -> Value {
+    let rep: Rc<RefCell<Vec<String>>> = Rc::new(RefCell::new(Vec::new()));
+    let r2 = rep.clone();
+    let mut o = Options::default().with_budget_report(move |r| r2.borrow_mut().push(format!("{r:?}")));
+    o.budget = Some(Budget { max_nodes: 12, ..Budget::default() });
+    let r = serde_saphyr::from_multiple_with_options::<Vec<RcAnchor<Vec<String>>>>(STREAMS[2], o);
+    let mut out = match r {
+        Ok(docs) => json!({"ok": {"docs": docs.len()}}),
+        Err(e) => err_json(&e),
+    };
+    out["report"] = json!(rep.borrow().clone());
+    out
+}
 
 fn build_table() -> Vec<BaseCall> {
     let mut t: Vec<BaseCall> = Vec::new();
@@ -1087,40 +1323,90 @@ fn build_table() -> Vec<BaseCall> {
             Err(e) => err_json(&e),
         }),
     );
-    // an iterator that stays alive while the following calls of the history run (dropped with the thread)
+    // ---- interleaved iterators: item j of stream s, taken from the iterator held open on this
+    //      thread if it stands at position j (the calls in between ran while it was alive),
+    //      otherwise from a new iterator advanced to position j (the old one is abandoned)
+    for st in 0..3usize {
+        for j in 0..3usize {
+            add(&format!("iter[{st}].item[{j}]"), st == 1 && j == 1, true, Box::new(move || iter_item(st, j)));
+        }
+    }
     add(
-        "iter-held-open",
+        "ok-shared-arc-recursive",
         false,
-        true,
-        Box::new(|| {
-            let rd: &'static mut &'static [u8] = Box::leak(Box::new(STREAM.as_bytes()));
-            let mut it = serde_saphyr::read::<_, Vec<RcAnchor<String>>>(rd);
-            let a = it.next().map(vec_out);
-            HELD_ITER.with(|h| *h.borrow_mut() = Some(it));
-            json!({"items": [a]})
+        false,
+        Box::new(|| match serde_saphyr::from_str::<KingdomArc>("king: &root\n  name: Aurelian\n  coronator: *root\n") {
+            Ok(d) => json!({"ok": king_arc_out(&d.king)}),
+            Err(e) => err_json(&e),
         }),
     );
-    // second document of the stream: from the held iterator if there is one, else from a new
-    // iterator whose first item is skipped — the same iterator state either way
     add(
-        "iter-resume-second-doc",
+        "ok-weak-rc",
         false,
-        true,
-        Box::new(|| {
-            let held = HELD_ITER.with(|h| h.borrow_mut().take());
-            let mut it = match held {
-                Some(it) => it,
-                None => {
-                    let rd: &'static mut &'static [u8] = Box::leak(Box::new(STREAM.as_bytes()));
-                    let mut it = serde_saphyr::read::<_, Vec<RcAnchor<String>>>(rd);
-                    let _ = it.next();
-                    it
-                }
-            };
-            let b = it.next().map(vec_out);
-            json!({"items": [b]})
+        false,
+        Box::new(|| match serde_saphyr::from_str::<StrongWeak>("strong: &a x\nweak: *a\nagain: *a\n") {
+            Ok(d) => {
+                let strong = Rc::strong_count(&d.strong.0);
+                let up = d.weak.upgrade();
+                json!({"ok": {
+                    "values": [(*d.strong.0).clone(), up.as_ref().map(|r| (**r).clone()).unwrap_or_else(|| "<dangling>".into()), (*d.again.0).clone()],
+                    "strong_counts": [strong],
+                    "classes": classes([Rc::as_ptr(&d.strong.0) as usize, up.as_ref().map(|r| Rc::as_ptr(r) as usize).unwrap_or(0), Rc::as_ptr(&d.again.0) as usize]),
+                }})
+            }
+            Err(e) => err_json(&e),
         }),
     );
+    // budget over several documents: the second document breaches
+    add("budget-breach-multi", false, false, Box::new(budget_multi_call));
+    // ---- more serialisation
+    add(
+        "ser-recursive",
+        false,
+        false,
+        Box::new(|| {
+            let k = RcRecursive::wrapping(KingS { name: "Aurelian".into(), coronator: RcRecursion(std::rc::Weak::new()) });
+            let back = RcRecursion::from(&k);
+            if let Some(inner) = k.0.borrow_mut().as_mut() {
+                inner.coronator = back;
+            }
+            ser_out(serde_saphyr::to_string(&KingdomS { king: k }))
+        }),
+    );
+    add(
+        "ser-multiple-shared-across-docs",
+        false,
+        false,
+        Box::new(|| {
+            let a = RcAnchor::wrapping("x".to_string());
+            let docs = vec![SerPair { a: a.clone(), b: a.clone() }, SerPair { a: a.clone(), b: RcAnchor::wrapping("y".to_string()) }];
+            ser_out(serde_saphyr::to_string_multiple(&docs))
+        }),
+    );
+    add(
+        "ser-io-writer",
+        false,
+        false,
+        Box::new(|| {
+            let a = ArcAnchor::wrapping("x".to_string());
+            let d = SerArcPair { a: a.clone(), b: a.clone(), w: ArcWeakAnchor::from(&a) };
+            let mut buf: Vec<u8> = Vec::new();
+            ser_out(serde_saphyr::to_io_writer(&mut buf, &d).map(|_| String::from_utf8_lossy(&buf).into_owned()))
+        }),
+    );
+    // ---- every entry point x every exit kind (Ok, Err, visitor panic)
+    for e in 0..ENTRIES.len() {
+        add(
+            &format!("panic-shared-rc@{}", ENTRIES[e]),
+            false,
+            false,
+            Box::new(move || match vcore::obs::catch(|| parse_via::<PanicDoc>(e, PANIC_DOC)) {
+                Err(p) => json!({"panic": p.split(" @ ").next().unwrap_or("")}),
+                Ok(Ok(_)) => json!({"ok": "unexpected"}),
+                Ok(Err(e)) => err_json(&e),
+            }),
+        );
+    }
     for e in 1..ENTRIES.len() {
         add(&format!("ok-shared-rc@{}", ENTRIES[e]), false, false, Box::new(move || shared_out(parse_via(e, SHARED_OK))));
     }
@@ -1290,8 +1576,23 @@ fn call_interesting(c: &Call) -> bool {
 fn describe(c: &Call) -> Value {
     match c {
         Call::Base(i) => json!(table()[*i].name),
-        Call::Nest(k, e, inner) => json!({"entry": ENTRIES[*e], "outer_doc": nest_doc(*k, inner), "nested": inner.iter().map(describe).collect::<Vec<_>>()}),
+        Call::Nest(k, e, m, inner) => json!({"entry": ENTRIES[*e], "exit": EXITS[*m / 2], "where": WHERES[*m % 2], "outer_doc": nest_doc(*k, &nest_scalar(*m, inner)), "nested": inner.iter().map(describe).collect::<Vec<_>>()}),
     }
+}
+
+static HOT_HISTORIES_HELD: std::sync::atomic::AtomicU64 = std::sync::atomic::AtomicU64::new(0);
+static HOT_NESTED_EXECS: std::sync::atomic::AtomicU64 = std::sync::atomic::AtomicU64::new(0);
+static HOT_NESTED_PAIRS: std::sync::atomic::AtomicU64 = std::sync::atomic::AtomicU64::new(0);
+static HOT_NESTED_OUTER_EQUAL: std::sync::atomic::AtomicU64 = std::sync::atomic::AtomicU64::new(0);
+static HOT_FRESH_THREADS: std::sync::atomic::AtomicU64 = std::sync::atomic::AtomicU64::new(0);
+
+fn flush_hot_counters(run: &Run) {
+    use std::sync::atomic::Ordering::Relaxed;
+    run.count("histories_held", HOT_HISTORIES_HELD.load(Relaxed));
+    run.count("nested_executions", HOT_NESTED_EXECS.load(Relaxed));
+    run.count("nested_pairs", HOT_NESTED_PAIRS.load(Relaxed));
+    run.count("nested_pairs_outer_equal", HOT_NESTED_OUTER_EQUAL.load(Relaxed));
+    run.count("fresh_threads_spawned", HOT_FRESH_THREADS.load(Relaxed));
 }
 
 fn hist_json(h: &[Call]) -> Value {
@@ -1311,7 +1612,7 @@ fn check_history(run: &Run, h: &[Call], phase: &str) {
     });
     run.evals(h.len() as u64);
     if nested > 0 {
-        run.count("nested_executions", nested);
+        HOT_NESTED_EXECS.fetch_add(nested, std::sync::atomic::Ordering::Relaxed);
     }
     let mut ok = true;
     for (i, (got, exp)) in outs.iter().zip(base.iter()).enumerate() {
@@ -1332,7 +1633,7 @@ fn check_history(run: &Run, h: &[Call], phase: &str) {
         }
     }
     if ok {
-        run.count("histories_held", 1);
+        HOT_HISTORIES_HELD.fetch_add(1, std::sync::atomic::Ordering::Relaxed);
     }
     if h.len() >= 2 && h.iter().any(call_interesting) {
         let encs: Vec<String> = h.iter().map(|c| c.enc()).collect();
@@ -1344,14 +1645,14 @@ fn check_history(run: &Run, h: &[Call], phase: &str) {
 /// Nested transparency: outer call with real nested calls == outer call with constant results,
 /// and each nested call's own outcome == its baseline.
 fn check_nested(run: &Run, c: &Call) {
-    let Call::Nest(_, _, inner) = c else { return };
+    let Call::Nest(_, _, _, inner) = c else { return };
     let constant = fresh(|| {
         CONST_MODE.with(|m| m.set(true));
         exec(c)
     });
     let real = baseline(c);
     run.evals(2);
-    run.count("nested_pairs", 1);
+    HOT_NESTED_PAIRS.fetch_add(1, std::sync::atomic::Ordering::Relaxed);
     let case = || json!({"phase": "nested", "call": c.enc(), "name": c.name(), "inner_names": hist_names(inner), "outer_doc": describe(c)});
     // every nested call's own result must be its fresh-thread result
     if let (Some(ci), Some(ri)) = (constant["inner"].as_array(), real["inner"].as_array()) {
@@ -1381,7 +1682,7 @@ fn check_nested(run: &Run, c: &Call) {
     }
     // the outer call's own result must not depend on whether the nested calls really ran
     if constant["outer"] == real["outer"] {
-        run.count("nested_pairs_outer_equal", 1);
+        HOT_NESTED_OUTER_EQUAL.fetch_add(1, std::sync::atomic::Ordering::Relaxed);
         return;
     }
     if let Some(how) = is_lost_outer_anchor_entries(&constant, &real) {
@@ -1399,7 +1700,7 @@ fn check_nested(run: &Run, c: &Call) {
         );
     } else {
         let path = diff_path(&constant["outer"], &real["outer"]).unwrap_or_default();
-        let Call::Nest(k, _, _) = c else { unreachable!() };
+        let Call::Nest(k, _, _, _) = c else { unreachable!() };
         report(run,
             &format!("C15:nested-outer-differs:{}:{}", NEST_KINDS[*k], path),
             case(),
@@ -1432,7 +1733,7 @@ fn check_repeat(run: &Run, c: &Call, times: usize) {
     for _ in 0..times {
         let v = fresh(|| exec(c));
         run.eval();
-        run.count("repeat_runs", 1);
+
         if v != b {
             report(run,
                 &format!("C15:nondeterministic:{}:{}", c.name(), diff_path(&b, &v).unwrap_or_default()),
@@ -1487,14 +1788,27 @@ const DOCUMENTED: &[(&str, &str, &str)] = &[
 
 // ------------------------------------------------------------------ call sets
 
+fn idx(name: &str) -> Call {
+    Call::Base(table().iter().position(|b| b.name == name).unwrap_or_else(|| panic!("table name {name}")))
+}
+
+fn kind(name: &str) -> usize {
+    NEST_KINDS.iter().position(|k| *k == name).unwrap_or_else(|| panic!("nest kind {name}"))
+}
+
+/// mode index of (exit, where)
+fn mode(exit: &str, wh: &str) -> usize {
+    EXITS.iter().position(|x| *x == exit).unwrap() * 2 + WHERES.iter().position(|x| *x == wh).unwrap()
+}
+
 fn core_calls() -> Vec<Call> {
     let mut v: Vec<Call> = table().iter().enumerate().filter(|(_, b)| b.core).map(|(i, _)| Call::Base(i)).collect();
-    let idx = |name: &str| Call::Base(table().iter().position(|b| b.name == name).expect("table name"));
     // nested members of the core alphabet
-    v.push(Call::Nest(0, 0, vec![idx("ok-shared-rc")]));
-    v.push(Call::Nest(1, 0, vec![idx("fail-in-anchored-node")]));
-    v.push(Call::Nest(2, 0, vec![idx("probe-missing-field")]));
-    v.push(Call::Nest(0, 0, vec![idx("panic-mid-document")]));
+    v.push(Call::Nest(kind("plain"), 0, mode("ok", "same-thread"), vec![idx("ok-shared-rc")]));
+    v.push(Call::Nest(kind("in-anchored-ctx"), 0, mode("ok", "same-thread"), vec![idx("fail-in-anchored-node")]));
+    v.push(Call::Nest(kind("plain"), 0, mode("err", "same-thread"), vec![idx("probe-missing-field")]));
+    v.push(Call::Nest(kind("plain"), 0, mode("ok", "same-thread"), vec![idx("panic-mid-document")]));
+    v.push(Call::Nest(kind("first-rc"), 0, mode("panic", "same-thread"), vec![idx("ok-shared-rc")]));
     v
 }
 
@@ -1506,11 +1820,12 @@ fn random_call(rng: &mut Rng, core: &[Call], depth: usize) -> Call {
     let n = table().len();
     if depth < 2 && rng.chance(1, 4) {
         let k = rng.below(NEST_KINDS.len());
-        let e = if k == 0 && rng.chance(1, 2) { rng.below(ENTRIES.len()) } else { 0 };
+        let e = if rng.chance(1, 3) { rng.below(ENTRIES.len()) } else { 0 };
+        let m = if rng.chance(1, 2) { 0 } else { rng.below(NEST_MODES) };
         let len = rng.below(4);
         let inner = (0..len).map(|_| random_call(rng, core, depth + 1)).collect();
-        Call::Nest(k, e, inner)
-    } else if rng.chance(2, 3) {
+        Call::Nest(k, e, m, inner)
+    } else if rng.chance(1, 2) {
         rng.pick(core).clone()
     } else {
         Call::Base(rng.below(n))
@@ -1622,17 +1937,38 @@ fn main() {
     let tier = run.tier;
     let core = core_calls();
     let base = all_base();
+    let core_nests: Vec<Call> = core.iter().filter(|c| matches!(c, Call::Nest(..))).cloned().collect();
+    let i_ok = idx("ok-shared-rc");
+    let i_fail = idx("fail-in-anchored-node");
+    let i_arc = idx("ok-shared-arc-string");
+
+    // the full table for pairs / triples: every base call, the nested core calls, and every outer
+    // kind through a second entry point
+    let mut full: Vec<Call> = base.clone();
+    full.extend(core_nests.iter().cloned());
+    for k in 0..NEST_KINDS.len() {
+        full.push(Call::Nest(k, 0, 0, vec![i_ok.clone()]));
+        full.push(Call::Nest(k, 2 + k % 17, mode("ok", "other-thread"), vec![i_arc.clone()]));
+    }
+    full.sort();
+    full.dedup();
+    {
+        let mut r = registered().lock().unwrap();
+        r.extend(core.iter().cloned());
+        r.extend(full.iter().cloned());
+    }
 
     // ---- phase 0: baselines, determinism
-    for c in base.iter().chain(core.iter()) {
+    for c in full.iter() {
         let b = baseline(c);
         run.eval();
         observe_outcome(&run, c, &b);
         if explore {
-            println!("{:40} {}", c.name(), b);
+            println!("{:52} {}", c.name(), b);
         }
         if b.get("lib_panic").is_some() {
-            report(&run,
+            report(
+                &run,
                 &format!("C15:panic:{}", vcore::obs::panic_site(b["lib_panic"].as_str().unwrap_or(""))),
                 json!({"phase": "history", "history": [c.enc()], "index": 0}),
                 format!("{b}"),
@@ -1644,13 +1980,14 @@ fn main() {
     // pinned by the documentation of the anchor wrappers (an alias shares the allocation of its
     // anchor, anything else is a separate allocation) the baseline itself is checked.
     for (name, values, cls) in DOCUMENTED {
-        let c = Call::Base(table().iter().position(|b| b.name == *name).expect("documented call"));
+        let c = idx(name);
         let b = baseline(&c);
         let exp_v: Value = serde_json::from_str(values).expect("documented values");
         let exp_c: Value = serde_json::from_str(cls).expect("documented classes");
         run.count("documented_baselines_checked", 1);
         if b["ok"]["values"] != exp_v || b["ok"]["classes"] != exp_c {
-            report(&run,
+            report(
+                &run,
                 &format!("C15:within-call-state:{name}"),
                 json!({"phase": "history", "history": [c.enc()], "names": [name], "index": 0}),
                 format!("first call on a fresh thread gave {b}; documented result: values {exp_v} sharing {exp_c}"),
@@ -1659,135 +1996,172 @@ fn main() {
     }
     run.count("table_calls", base.len() as u64);
     run.count("core_alphabet", core.len() as u64);
-    {
-        let all: Vec<Call> = base.iter().chain(core.iter()).cloned().collect();
-        par_range(all.len(), |i| check_repeat(&run, &all[i], tier.pick(3, 10)));
-    }
-    check_children(&run, tier.pick(2, 6));
+    run.count("full_table", full.len() as u64);
+    par_range(full.len(), |i| check_repeat(&run, &full[i], tier.pick(8, 40)));
+    check_children(&run, tier.pick(4, 16));
 
-    // ---- phase 1: nested transparency sweep
-    let nested_len = tier.pick(1, 2);
-    let mut nested_cases: Vec<Call> = Vec::new();
-    for k in 0..NEST_KINDS.len() {
-        nested_cases.push(Call::Nest(k, 0, vec![]));
-        // every call of the table and of the core alphabet (so depth 2 occurs) as the single nested call
-        for c in base.iter().chain(core.iter().filter(|c| matches!(c, Call::Nest(..)))) {
-            nested_cases.push(Call::Nest(k, 0, vec![c.clone()]));
-        }
-        // every sequence of core calls up to the bound
-        for len in 2..=(nested_len + 1) {
-            let total = core.len().pow(len as u32);
-            for i in 0..total {
-                nested_cases.push(Call::Nest(k, 0, nth_history(&core, len, i)));
+    // ---- phase 1: nested transparency
+    let nested_seq = tier.pick(2, 3); // nested list: every sequence of core calls up to this length
+    let n_kinds = NEST_KINDS.len();
+    let singles: Vec<Call> = base.iter().chain(core_nests.iter()).cloned().collect();
+    // 1a: kind x exit x where x (empty | every single call | every core sequence)
+    {
+        let mut lists: Vec<Vec<Call>> = vec![vec![]];
+        lists.extend(singles.iter().map(|c| vec![c.clone()]));
+        for len in 2..=nested_seq {
+            for i in 0..core.len().pow(len as u32) {
+                lists.push(nth_history(&core, len, i));
             }
         }
+        let total = n_kinds * NEST_MODES * lists.len();
+        run.count("nested_1a_kind_x_mode_x_list", total as u64);
+        par_range(total, |i| {
+            let k = i % n_kinds;
+            let m = (i / n_kinds) % NEST_MODES;
+            let c = Call::Nest(k, 0, m, lists[i / (n_kinds * NEST_MODES)].clone());
+            check_nested(&run, &c);
+            if explore && i < 400 {
+                println!("NEST {:60} {}", c.name(), baseline(&c));
+            }
+            if i % 20011 == 0 {
+                run.sample(|| json!({"nested": c.enc(), "name": c.name(), "outer_doc": describe(&c), "outcome": baseline(&c)}));
+            }
+        });
     }
-    // outer call through every entry point
-    let i_ok = base[0].clone();
-    let i_fail = Call::Base(table().iter().position(|b| b.name == "fail-in-anchored-node").unwrap());
-    for e in 1..ENTRIES.len() {
-        nested_cases.push(Call::Nest(0, e, vec![]));
-        nested_cases.push(Call::Nest(0, e, vec![i_ok.clone()]));
-        nested_cases.push(Call::Nest(0, e, vec![i_fail.clone()]));
+    // 1b: kind x entry point x exit x {Ok call, Err call, Arc call} (same thread)
+    {
+        let inners = [vec![], vec![i_ok.clone()], vec![i_fail.clone()], vec![i_arc.clone(), i_ok.clone()]];
+        let total = n_kinds * ENTRIES.len() * EXITS.len() * inners.len();
+        run.count("nested_1b_kind_x_entry_x_exit", total as u64);
+        par_range(total, |i| {
+            let k = i % n_kinds;
+            let e = (i / n_kinds) % ENTRIES.len();
+            let x = (i / (n_kinds * ENTRIES.len())) % EXITS.len();
+            let c = Call::Nest(k, e, x * 2, inners[i / (n_kinds * ENTRIES.len() * EXITS.len())].clone());
+            check_nested(&run, &c);
+        });
     }
-    run.count("nested_cases", nested_cases.len() as u64);
-    par_range(nested_cases.len(), |i| {
-        let c = &nested_cases[i];
-        check_nested(&run, c);
-        if explore && i < 200 {
-            println!("NEST {:50} {}", c.enc(), baseline(c));
+    // 1c: nesting levels: kind in kind (in kind) around every core call
+    {
+        let levels = tier.pick(2, 3);
+        for lv in 2..=levels {
+            let total = n_kinds.pow(lv as u32) * core.len();
+            run.count(&format!("nested_1c_depth{lv}"), total as u64);
+            par_range(total, |i| {
+                let mut c = core[i % core.len()].clone();
+                let mut r = i / core.len();
+                for _ in 0..lv {
+                    c = Call::Nest(r % n_kinds, 0, 0, vec![c]);
+                    r /= n_kinds;
+                }
+                check_nested(&run, &c);
+            });
         }
-        if i % 97 == 0 {
-            run.sample(|| json!({"nested": c.enc(), "name": c.name(), "inner": hist_names(match c { Call::Nest(_, _, v) => v, _ => &[] }), "outcome": baseline(c)}));
-        }
-    });
+    }
 
-    // ---- phase 2: exhaustive histories over the core alphabet
-    let max_len = tier.pick(3, 4);
+    // ---- phase 2: exhaustive histories
+    let max_len = tier.pick(4, 5);
     for len in 1..=max_len {
         let total = core.len().pow(len as u32);
         run.count(&format!("exhaustive_histories_len{len}"), total as u64);
         par_range(total, |i| {
             let h = nth_history(&core, len, i);
             check_history(&run, &h, "exhaustive");
-            if i % 4001 == 7 {
+            if i % 400_009 == 7 {
                 run.sample(|| json!({"history": hist_names(&h)}));
             }
         });
     }
-    // every ordered pair over the full table + nested entry-point calls (quick); triples with a core middle (thorough)
-    let mut full: Vec<Call> = base.clone();
-    full.extend(core.iter().filter(|c| matches!(c, Call::Nest(..))).cloned());
-    for e in 1..ENTRIES.len() {
-        full.push(Call::Nest(0, e, vec![i_ok.clone()]));
-    }
     {
         let total = full.len() * full.len();
         run.count("exhaustive_pairs_full_table", total as u64);
-        par_range(total, |i| {
-            let h = nth_history(&full, 2, i);
-            check_history(&run, &h, "pairs");
-        });
+        par_range(total, |i| check_history(&run, &nth_history(&full, 2, i), "pairs"));
     }
-
-    // thorough: every triple (a, m, b) with a, b over the full table and m over the core alphabet
-    if tier == Tier::Thorough {
-        let total = full.len() * core.len() * full.len();
-        run.count("exhaustive_triples_full_core_full", total as u64);
+    // triples: quick full x core x full, thorough full x full x full
+    {
+        let mid: &[Call] = tier.pick(&core[..], &full[..]);
+        let total = full.len() * mid.len() * full.len();
+        run.count("exhaustive_triples", total as u64);
         par_range(total, |i| {
             let a = &full[i % full.len()];
-            let m = &core[(i / full.len()) % core.len()];
-            let b = &full[i / (full.len() * core.len())];
+            let m = &mid[(i / full.len()) % mid.len()];
+            let b = &full[i / (full.len() * mid.len())];
             check_history(&run, &[a.clone(), m.clone(), b.clone()], "triples");
         });
     }
-
-    // an iterator held open across every other call, then resumed
+    // interleaved iterators: every schedule of `next` calls on three streams, and every call of
+    // the full table between two items of each stream
     {
-        let held = Call::Base(table().iter().position(|b| b.name == "iter-held-open").unwrap());
-        let resume = Call::Base(table().iter().position(|b| b.name == "iter-resume-second-doc").unwrap());
-        run.count("held_iterator_histories", full.len() as u64);
-        par_range(full.len(), |i| {
-            check_history(&run, &[held.clone(), full[i].clone(), resume.clone()], "held-iterator");
+        let iters: Vec<Call> = (0..3).flat_map(|s| (0..3).map(move |j| (s, j))).map(|(s, j)| idx(&format!("iter[{s}].item[{j}]"))).collect();
+        let sched_len = tier.pick(5, 6);
+        for len in 2..=sched_len {
+            let total = iters.len().pow(len as u32);
+            run.count(&format!("iterator_schedules_len{len}"), total as u64);
+            par_range(total, |i| check_history(&run, &nth_history(&iters, len, i), "iterator-schedules"));
+        }
+        let total = 3 * full.len() * full.len();
+        run.count("iterator_held_across_calls", total as u64);
+        par_range(total, |i| {
+            let s = i % 3;
+            let x = &full[(i / 3) % full.len()];
+            let y = &full[i / (3 * full.len())];
+            let h = [iters[s * 3].clone(), x.clone(), iters[s * 3 + 1].clone(), y.clone(), iters[s * 3 + 2].clone()];
+            check_history(&run, &h, "iterator-held");
         });
     }
 
-    // ---- phase 3: random histories up to length 20
-    let n_random = tier.pick(12_000, 150_000);
+    // ---- phase 3: random histories up to length 24
+    let n_random = tier.pick(150_000, 1_500_000);
     par_range(n_random, |i| {
         let mut rng = Rng::stream(run.seed, i as u64);
-        let len = rng.range(2, 20);
+        let len = rng.range(2, 24);
         let h: Vec<Call> = (0..len).map(|_| random_call(&mut rng, &core, 0)).collect();
-        run.max("max_random_history_len", h.len() as u64);
-        run.max("max_nest_depth", h.iter().map(|c| c.depth()).max().unwrap_or(0) as u64);
+        if i % 64 == 0 {
+            run.max("max_random_history_len", h.len() as u64);
+            run.max("max_nest_depth", h.iter().map(|c| c.depth()).max().unwrap_or(0) as u64);
+        }
         check_history(&run, &h, "random");
-        // nested transparency for the random nested calls too
-        for c in h.iter().filter(|c| matches!(c, Call::Nest(..))).take(2) {
+        // nested transparency for one of the random nested calls too
+        if let Some(c) = h.iter().find(|c| matches!(c, Call::Nest(..))) {
             check_nested(&run, c);
         }
-        if i % 499 == 0 {
+        if i % 50_021 == 0 {
             run.sample(|| json!({"random_history": hist_names(&h)}));
         }
     });
     run.count("random_histories", n_random as u64);
-    run.count("distinct_calls_with_baseline", baselines().lock().unwrap().len() as u64);
+    run.count("calls_with_kept_baseline", baselines().lock().unwrap().len() as u64);
+    flush_hot_counters(&run);
 
     let scope = format!(
-        "every history of length <= {max_len} over the core alphabet of {} calls ({} base calls + 4 nested calls), each on a fresh thread; every ordered pair over the full table of {} calls (all entry points; thorough: also every triple full x core x full); an iterator held open across each call of the full table and then resumed; nested: every outer kind ({}) x every single table call and every sequence of <= {} core calls as the nested list, outer kind 'plain' through all {} entry points",
+        "(1) every history of length <= {max_len} over the core alphabet of {} calls ({} base calls + {} nested calls), each history on its own fresh thread; \
+         (2) every ordered pair and every triple a,m,b (a,b over the full table of {} calls: {} base calls incl. {} entry points x {{Ok, Err, visitor panic}}, the nested core calls, every outer kind through two entry points; m over {}); \
+         (3) iterators: every schedule of <= {} `next` calls over 3 streams x 3 positions, and item0,x,item1,y,item2 of each stream for every x,y of the full table; \
+         (4) nested transparency: {} outer kinds x {} exit kinds (Ok/Err/panic) x {} threads x (empty list | every single call of the table | every sequence of <= {} core calls); {} outer kinds x {} entry points x {} exit kinds x 4 lists; nesting depth <= {} (every kind in every kind around every core call)",
         core.len(),
-        core.len() - 4,
+        core.len() - core_nests.len(),
+        core_nests.len(),
         full.len(),
-        NEST_KINDS.len(),
-        nested_len + 1,
-        ENTRIES.len()
+        base.len(),
+        ENTRIES.len(),
+        tier.pick("the core alphabet", "the full table"),
+        tier.pick(5, 6),
+        n_kinds,
+        EXITS.len(),
+        WHERES.len(),
+        nested_seq,
+        n_kinds,
+        ENTRIES.len(),
+        EXITS.len(),
+        tier.pick(2, 3),
     );
     let fin = Finish::new(
-        "a history counts as non-trivial when it has >= 2 calls and >= 1 of them fails, nests, panics (caught visitor panic) or abandons an iterator (judged from the call's own baseline outcome); a nested-transparency pair counts when the nested list is non-empty; distinct by hash of the encoded history",
+        "exhaustive spaces named in exhaustive_scope + seeded random histories of 2..24 calls (1/4 of the calls nested, depth <= 3, random kind / entry point / exit kind / thread). A history counts as non-trivial when it has >= 2 calls and >= 1 of them fails, nests, panics (caught visitor panic) or abandons an iterator (judged from the call's own baseline outcome); a nested-transparency pair counts when the nested list is non-empty; distinct by hash of the encoded history / nested call",
     )
     .exhaustive(scope)
     .assume("baseline = the call executed as the first and only call on a freshly spawned thread of the same process")
-    .assume("outcomes compare values, error kind + line/column + message text, pointer-sharing partitions, budget reports, emitted text; never hash-map iteration order or addresses")
+    .assume("outcomes compare values, error kind + line/column + message text, pointer-sharing partitions, strong counts per sharing class, payloads dropped with the result, budget reports, emitted text; never hash-map iteration order or addresses")
     .assume("the constant result substituted for a nested call is that call's own fresh-thread outcome")
-    .min_nontrivial(if tier == Tier::Quick { 5_000 } else { 100_000 });
+    .min_nontrivial(if tier == Tier::Quick { 200_000 } else { 2_000_000 });
     run.finish(fin);
 }
